@@ -962,18 +962,16 @@ fn compile_string_case(
         })
         .collect();
 
-    let default = if default_rows.is_empty() {
-        None
-    } else {
-        Some(Box::new(compile_rows(
-            genv,
-            gensym,
-            diagnostics,
-            default_rows,
-            ty,
-            match_range,
-        )))
-    };
+    // Without a catch-all row this is the `missing` call: a string that matches none of the
+    // literals must fail there, not leave the switch with a zero value.
+    let default = Some(Box::new(compile_rows(
+        genv,
+        gensym,
+        diagnostics,
+        default_rows,
+        ty,
+        match_range,
+    )));
 
     core::Expr::EMatch {
         expr: Box::new(bvar.to_core()),
